@@ -4,6 +4,7 @@ CHECKS = {
     "C23": "hwrecovery",
     "C24": "hwrecovery",
     "C25": "composite",
+    "C21": "units",
 }
 
 MC = "model_checking"
@@ -33,4 +34,13 @@ CLAIMS = {
             "value, one and two successive batches, and checks the composite algorithm against the per-register reference; each "
             "transition is executed on the real class over recording layers and TLC compares read results and every layer's memory.",
             "Trusted: in-memory fake layers; write batches do not repeat a register.", "6.5, 7 C25"),
+    "C21": (EXP, "TLA+ reference operator Units.tla (exact comparison with small integers; its algebraic laws checked by TLC) "
+                 "against the real compare_values / are_comparable on every unit pair, validated record by record by UnitsTrace.tla",
+            "TLC checks trichotomy, antisymmetry and operator consistency of the reference over a value grid; the real functions "
+            "are run on every ordered pair of supported units of a quantity with values at and around the exact conversion "
+            "points (each also +-1e-20) under all 7 operators, and on the full comparability table; TLC compares each result "
+            "with the reference and checks symmetry of comparability.",
+            "Trusted: the unit table transcribed into Units.tla (conversion factors as small rationals x power of ten), an "
+            "exact Fraction-based pint registry used only to propose inputs. Values limited to what 28-digit decimals represent.",
+            "6.9, 7 C21"),
 }
